@@ -8,6 +8,10 @@
 //!
 //! ops:  setup <with_port> <responses> <requests> <pp> <max_flows> <nb_backends>
 //!       send <client> <payload>        round trip expected (or not: the oracle decides)
+//!       rmfront / addfront             RemoveUdpFrontend / AddUdpFrontend of the listener's only frontend
+//!       rmcluster                      RemoveCluster of the cluster the listener routes to
+//!       updlistener <max_rx> [<front_s> <back_s> <max_flows>]   UpdateUdpListener (-1: field absent)
+//!       sleep <ms> [1 | 2 <client>...]  1: the oracle forgets every flow, 2: the flows of these clients
 //!       end-of-case: soft stop
 //! Loss is tolerated (a missing datagram is only a violation where the oracle
 //! expects delivery and nothing arrives within a generous deadline).
@@ -34,6 +38,8 @@ use sozu_lib::server::Server;
 use verif_harness::*;
 
 const CLUSTER: &str = "c19";
+/// the worker's global buffer_size (command/src/config.rs DEFAULT_BUFFER_SIZE): max_rx_datagram_size is clamped to it
+const BUFFER_SIZE: usize = 16_393;
 /// deadline for a delivery the oracle expects; C19E_RT_MS overrides it (the check re-runs a failing
 /// scenario alone with a much longer deadline before it reports anything)
 fn rt() -> Duration {
@@ -191,6 +197,10 @@ fn run(c: &Case, out: &mut Out) {
     let bounced = false;   // kept for the violation class of the (fixed) finding e2e-reactivated-listener-dead
     let mut v6 = false;
     let mut removed = false;
+    // routing lifecycle (RemoveUdpFrontend / RemoveCluster / AddUdpFrontend / UpdateUdpListener): the listener
+    // forwards only while its manager names a cluster
+    let mut has_front = true;
+    let mut routed = true;
     let mut max_rx: usize = 1500;   // max_rx_datagram_size of the listener (UpdateUdpListener changes it)
     let mut fd_base: Option<usize> = None;   // descriptors once the worker, listener and backends are up
     // flow key -> (replies so far, requests so far); a key is the client address (4-tuple) or its IP (2-tuple)
@@ -289,7 +299,7 @@ fn run(c: &Case, out: &mut Out) {
                 let cap = if max_flows == 0 { u32::MAX } else { max_flows };
                 let existing = live.contains_key(&key);
                 // larger than max_rx_datagram_size (1500): dropped before any flow is allocated
-                let admitted = !removed && payload.len() <= max_rx && (existing || (live.len() as u32) < cap);
+                let admitted = !removed && routed && payload.len() <= max_rx && (existing || (live.len() as u32) < cap);
                 // wait for the datagram at some backend
                 let deadline = Instant::now() + if admitted { if bounced { rt().min(Duration::from_millis(1500)) } else { rt() } } else { QUIET };
                 let mut hit: Option<(usize, Seen)> = None;
@@ -310,6 +320,7 @@ fn run(c: &Case, out: &mut Out) {
                 match (&hit, admitted) {
                     (None, true) if bounced => out.viol("e2e-reactivated-listener-dead", &format!("client {ci}: after DeactivateListener + ActivateListener (both answered Ok) the UDP listener forwards nothing: datagram of an admissible flow (live={} cap={cap}) never reached a backend", live.len())),
                     (None, true) => out.viol("e2e-bounded", &format!("client {ci} ({me}): datagram of an admissible flow (live={} cap={cap}) never reached a backend", live.len())),
+                    (Some((bi, _)), false) if !routed && !removed => out.viol("e2e-unrouted", &format!("client {ci}: {} bytes forwarded to backend {bi} although the listener has no frontend / its cluster was removed (nothing may be forwarded until it is routed again)", payload.len())),
                     (Some((bi, _)), false) => out.viol("e2e-bounded", &format!("client {ci}: {} bytes forwarded to backend {bi} although the datagram is oversized or the flow table is full (live={} cap={cap})", payload.len(), live.len())),
                     _ => {}
                 }
@@ -420,6 +431,10 @@ fn run(c: &Case, out: &mut Out) {
                 if a.get(1).map_or(false, |t| t.n() == 1) {
                     live.clear();
                 }
+                if a.get(1).map_or(false, |t| t.n() == 2) {
+                    let gone: Vec<i128> = a[2..].iter().map(|t| t.n()).collect();
+                    live.retain(|_, f| !gone.contains(&f.4));
+                }
                 out.obs(&[]);
             }
             "addbackend" => {
@@ -487,16 +502,74 @@ fn run(c: &Case, out: &mut Out) {
             "updlistener" => {
                 // UpdateUdpListener on the active listener: a new max_rx_datagram_size (the session's receive
                 // buffer is resized: an oversized datagram must still be dropped, never forwarded cut)
-                max_rx = a[0].n() as usize;
+                // optional: front_timeout, back_timeout (seconds), max_flows; -1 leaves the field out of the patch.
+                // The stored rx size is clamped to the worker's buffer_size (16393 by default); flows admitted
+                // from now on capture the new timeouts, the cap applies at once, and the patch rebuilds the
+                // manager's configuration from the listener (a listener whose cluster was removed but whose
+                // frontend is still there routes again)
+                let opt = |i: usize| a.get(i).map(|t| t.n()).filter(|v| *v >= 0).map(|v| v as u32);
+                let rx = opt(0);
+                if let Some(v) = rx {
+                    max_rx = (v as usize).min(BUFFER_SIZE);
+                }
+                if let Some(v) = opt(3) {
+                    max_flows = v;
+                }
+                routed = has_front;
                 let faddr = front.unwrap();
                 let ok = worker.as_mut().map_or(false, |w| {
                     w.req(RequestType::UpdateUdpListener(UpdateUdpListenerConfig {
                         address: faddr.into(),
-                        max_rx_datagram_size: Some(max_rx as u32),
+                        max_rx_datagram_size: rx,
+                        front_timeout: opt(1),
+                        back_timeout: opt(2),
+                        max_flows: opt(3),
                         ..Default::default()
                     }))
                 });
                 out.obs(&[ts("updlistener"), tbool(ok)]);
+            }
+            "rmfront" => {
+                // RemoveUdpFrontend: the manager goes back to the default configuration (no cluster): nothing
+                // is forwarded any more, not even on a live flow; the flows keep their slots until they idle out
+                let faddr = front.unwrap();
+                let ok = worker.as_mut().map_or(false, |w| {
+                    w.req(RequestType::RemoveUdpFrontend(RequestUdpFrontend {
+                        cluster_id: CLUSTER.into(),
+                        address: faddr.into(),
+                        tags: Default::default(),
+                    }))
+                });
+                has_front = false;
+                routed = false;
+                out.obs(&[ts("rmfront"), tbool(ok)]);
+            }
+            "addfront" => {
+                // AddUdpFrontend (again): the configuration is rebuilt from the listener and the cluster's cached
+                // udp block (kept across RemoveUdpFrontend, dropped by RemoveCluster)
+                let faddr = front.unwrap();
+                let ok = worker.as_mut().map_or(false, |w| {
+                    w.req(RequestType::AddUdpFrontend(RequestUdpFrontend {
+                        cluster_id: CLUSTER.into(),
+                        address: faddr.into(),
+                        tags: Default::default(),
+                    }))
+                });
+                has_front = true;
+                routed = true;
+                out.obs(&[ts("addfront"), tbool(ok)]);
+            }
+            "rmcluster" => {
+                // RemoveCluster: a listener routed to it forwards nothing any more; the cluster's udp block is
+                // forgotten (a later AddUdpFrontend / UpdateUdpListener finds the defaults)
+                let ok = worker.as_mut().map_or(false, |w| w.req(RequestType::RemoveCluster(CLUSTER.into())));
+                with_port = false;
+                responses = 0;
+                requests = 0;
+                pp = false;
+                pp_every = false;
+                routed = false;
+                out.obs(&[ts("rmcluster"), tbool(ok)]);
             }
             "recluster_noudp" => {
                 // AddCluster for the same cluster WITHOUT a udp block: every UDP knob goes back to its default
@@ -506,6 +579,7 @@ fn run(c: &Case, out: &mut Out) {
                 requests = 0;
                 pp = false;
                 pp_every = false;
+                routed = has_front;
                 let ok = worker.as_mut().map_or(false, |w| {
                     w.req(RequestType::AddCluster(Cluster {
                         cluster_id: CLUSTER.into(),
@@ -520,6 +594,7 @@ fn run(c: &Case, out: &mut Out) {
             "recluster" => {
                 // cluster update that flips the affinity mode under live flows
                 with_port = a[0].n() == 1;
+                routed = has_front;
                 let ok = worker.as_mut().map_or(false, |w| {
                     w.req(RequestType::AddCluster(Cluster {
                         cluster_id: CLUSTER.into(),
